@@ -81,7 +81,45 @@ def setup_controller(u, qual, control_type, display_on=None):
 
     u.it.abstract[SC + "step_control.StepController.display_step"] = display_step
     timer = u.construct("pygradflow.timer.Timer", params.fields["time_limit"])
+    havoc_history(u, ctrl)
     return params, problem, ctrl, iterate, rho, dt, timer, log, display_on
+
+
+def lamb_writers(u, ctrl):
+    """(class, method) pairs of the controller's class hierarchy that store to self.lamb outside a constructor"""
+    import ast as _ast
+
+    out = []
+    for c in ctrl.cls.mro():
+        for m in c.methods.values():
+            if m.name == "__init__":
+                continue
+            for n in _ast.walk(m.node):
+                if isinstance(n, _ast.Attribute) and isinstance(n.ctx, _ast.Store) and n.attr == "lamb" and isinstance(n.value, _ast.Name) and n.value.id == "self":
+                    out.append(f"{c.name}.{m.name}")
+    return sorted(set(out))
+
+
+def havoc_history(u, ctrl):
+    """the controller object lives for a whole solve: whatever earlier steps left in its mutable state (cached inverse
+    step size, PI controller sums / values, last residual function) must not matter for the contract of the next step"""
+    F = ctrl.fields
+    writers = lamb_writers(u, ctrl)
+    if not writers:
+        # class invariant by frame: nothing but the constructor ever stores self.lamb (Fixed controller)
+        u.ensure(True, "frame:self.lamb_is_written_by_the_constructor_only")
+    if "lamb" in F and writers:
+        lam = u.real("ctrl_lamb_left_by_earlier_steps")
+        u.assume(lam > 0)
+        F["lamb"] = lam
+    lc = F.get("controller")
+    if isinstance(lc, Obj):
+        inner = lc.fields.get("controller")
+        if isinstance(inner, Obj):
+            inner.fields["error_sum"] = u.real("pi_error_sum")
+            inner.fields["value"] = u.real("pi_value")
+    if "res_func" in F:
+        F["res_func"] = Opaque("res_func of an earlier step")
 
 
 def run_step(u, ctrl, iterate, rho, dt, display_on, timer):
